@@ -362,9 +362,117 @@ def tie_C05_jitter(ctx):
             ctx.fail("projection", f"JitterRng: op #{k} `{ops[k]}` (after {ops[:k]}) is not the documented projection of the stream of collected values",
                      c, expected=exp[k][:80], actual=act[k][:80])
 
+def jitter_special_words(ctx, wants):
+    """timer scripts (rounds = 1, fresh pool) whose first collected 64-bit value satisfies a linear condition — high half
+    zero, low half zero, both halves equal … — found by solving over GF(2): for non-stuck measurements the collected
+    value is an affine function of the two 31-bit deltas (priming + one accepted measurement).  The MODEL is the oracle
+    for the affine map; every candidate is re-evaluated on the model before use."""
+    rng = ctx.rng
+    def script(d1, d2, t0=1 << 40):
+        return [t0, 7, t0 + d1, 9, 11, t0 + d1 + d2, 13] + [t0 + d1 + d2 + 1000 * k * k + 17 * k for k in range(1, 60)]
+    def evals(pairs):
+        cases = [[f"timer 0 {rd_hex(script(a, b))}", "jit 1 0", "rounds 1 1", "u64 1", "calls 0"] for a, b in pairs]
+        return run_chunks(DRIVER, cases)
+    out = []
+    for attempt in range(4):
+        b1, b2 = rng.getrandbits(31) | 1, rng.getrandbits(31) | 2
+        pts = [(b1, b2)] + [(b1 ^ (1 << i), b2) for i in range(31)] + [(b1, b2 ^ (1 << i)) for i in range(31)]
+        res = evals(pts)
+        if any(r[4] != "7" or len(r[3]) != 16 for r in res):
+            continue                      # some point was stuck (consumed more readings): pick another base
+        f0 = int(res[0][3], 16)
+        cols = [int(r[3], 16) ^ f0 for r in res[1:]]
+        for name, rows, target in wants:
+            # rows: list of 64-bit masks (each a linear functional of the output); want functional(output) = target bit
+            eqs = []
+            for mask, tb in zip(rows, target):
+                coeff = 0
+                for j, c in enumerate(cols):
+                    if bin(c & mask).count("1") & 1:
+                        coeff |= 1 << j
+                rhs = (bin(f0 & mask).count("1") & 1) ^ tb
+                eqs.append((coeff, rhs))
+            # Gaussian elimination over 62 unknowns
+            piv = {}
+            ok = True
+            for coeff, rhs in eqs:
+                for pbit, (pc, pr) in piv.items():
+                    if (coeff >> pbit) & 1:
+                        coeff ^= pc; rhs ^= pr
+                if coeff == 0:
+                    if rhs:
+                        ok = False; break
+                    continue
+                pbit = coeff.bit_length() - 1
+                for qb in list(piv):
+                    qc, qr = piv[qb]
+                    if (qc >> pbit) & 1:
+                        piv[qb] = (qc ^ coeff, qr ^ rhs)
+                piv[pbit] = (coeff, rhs)
+            if not ok:
+                continue
+            for _ in range(3):
+                x = rng.getrandbits(62)
+                for pbit in piv:
+                    x &= ~(1 << pbit)
+                for pbit, (pc, pr) in piv.items():
+                    val = pr ^ (bin(pc & x & ~(1 << pbit)).count("1") & 1)
+                    if val:
+                        x |= 1 << pbit
+                d1, d2 = b1 ^ (x & ((1 << 31) - 1)), b2 ^ (x >> 31)
+                if d1 == 0 or d2 == 0:
+                    continue
+                r = evals([(d1, d2)])[0]
+                if r[4] == "7" and len(r[3]) == 16:
+                    v = int(r[3], 16)
+                    if all((bin(v & mask).count("1") & 1) == tb for mask, tb in zip(rows, target)):
+                        out.append((name, script(d1, d2), v))
+                        break
+        if len(out) >= len(wants):
+            break
+    return out
+
+def tie_C05_jitter_special(ctx):
+    """JitterRng words with a zero high half, a zero low half, equal halves: `0 means nothing pending` style shortcuts"""
+    rng = ctx.rng
+    hi = [1 << (32 + i) for i in range(32)]
+    lo = [1 << i for i in range(32)]
+    eqh = [(1 << i) | (1 << (32 + i)) for i in range(32)]
+    wants = [("high-half-zero", hi, [0] * 32), ("low-half-zero", lo, [0] * 32), ("halves-equal", eqh, [0] * 32),
+             ("high-half-ones", hi, [1] * 32)]
+    found = jitter_special_words(ctx, wants)
+    cases, meta = [], []
+    for name, rs, v in found:
+        hx = rd_hex(rs)
+        for ops in (["u32", "u32", "u32", "u32"], ["u32", "fill 3", "u32"], ["u32", "u64", "u32"], ["fill 4", "u32", "u32"],
+                    ["u32", "fill 0", "u32", "u32"]):
+            c = [f"timer 0 {hx}", "jit 1 0", "rounds 1 1", f"timer 2 {hx}", "jit 3 2", "rounds 3 1"] + op_lines(1, ops)
+            ts = len(c)
+            c += ["u64 3"] * 6
+            cases.append(c); meta.append((ops, ts, name))
+            ctx.dist[f"jitter-word:{name}"] += 1
+    if not cases:
+        ctx.notes.append("no special JitterRng words found this run")
+        return
+    outs = ctx.real("projection(JitterRng) on timers whose first collected value has a zero / all-ones / repeated half", cases)
+    pcases = [[f"proj jitter {','.join(x for x in o[ts:] if x != 'blocked')} " + " ".join(proj_tokens(ops))]
+              for (ops, ts, name), o in zip(meta, outs)]
+    pouts = run_chunks(DRIVER, pcases, chunk=200)
+    for (ops, ts, name), c, o, po in zip(meta, cases, outs, pouts):
+        act = o[6:6 + len(ops)]
+        if "blocked" in act:
+            continue
+        exp = po[0].split(" | ")[0].split(" ")
+        ctx.traces_validated += 1
+        if exp[:len(act)] != act:
+            k = next((i for i, (x, y) in enumerate(zip(exp, act)) if x != y), 0)
+            ctx.fail("projection", f"JitterRng: with a collected value whose {name.replace('-', ' ')}, op #{k} `{ops[k]}` (after {ops[:k]}) "
+                     f"is not the documented projection", c, expected=exp[k][:80], actual=act[k][:80])
+
 def tie_C05_all(ctx):
     tie_C05(ctx)
     tie_C05_jitter(ctx)
+    tie_C05_jitter_special(ctx)
 
 PROPS = {
     "C01": dict(tie=tie_C01, absolute=True),
@@ -432,9 +540,8 @@ def preimage_C06(ctx):
         targets = []
         for k in range(nw):
             b = bytearray(nb); b[k * wb:(k + 1) * wb] = rand_bytes(rng, wb); targets.append(bytes(b))
-        targets += [s_ for _, s_ in coincidence_seeds(rng, nb, k=1)][:4]
-        if not ctx.thorough:
-            targets = rng.sample(targets, min(len(targets), 3))
+        extra = [s_ for _, s_ in coincidence_seeds(rng, nb, k=1)]
+        targets += extra if ctx.thorough else rng.sample(extra, min(len(extra), 2))
         for t in targets:
             if not any(t):
                 continue
@@ -469,13 +576,19 @@ def real_orbit(ctx, g, seed, steps):
 def falsify_C06(ctx, sample=1, gens=None):
     """Black-box: recover the minimal polynomial P of the real step by Berlekamp–Massey, compute
     x^(2^(n/2)) and x^(2^(3n/4)) mod P, evaluate them on a state with n real steps and compare
-    with the real jump()/long_jump()."""
+    with the real jump()/long_jump().  States: the ones on which model and code disagreed (if any), then random ones."""
     rng = ctx.rng
+    suspects = collections.defaultdict(list)
+    for d in ctx.disagreements:
+        c0 = d["case"][0].split() if d.get("case") else []
+        if len(c0) == 5 and c0[0] == "new" and c0[3] == "seed" and c0[2] in JUMPERS and len(suspects[c0[2]]) < 3:
+            suspects[c0[2]].append(bytes.fromhex(c0[4]))
     for g in (gens or JUMPERS):
         info = GENS[g]
         n, nb = info["n"], info["seed"]
-        for _ in range(sample):
-            seed = rand_bytes(rng, nb)
+        for seed in suspects.get(g, []) + [rand_bytes(rng, nb) for _ in range(sample)]:
+            if not any(seed):
+                continue
             S = real_orbit(ctx, g, seed, 2 * n + 2)
             bits = [s & 1 for s in S]
             P, L = gf2.min_poly_from_bits(bits)
@@ -1187,6 +1300,20 @@ def tie_C13(ctx):
             scripts.append((f"mod100-with-backward={nback}", probe_script(rng, [rng.randrange(3, 90) for _ in range(100)] + ds)))
     for _ in range(ctx.scale(30, 400)):
         scripts.append(("stuck-pattern", probe_script(rng, [v if v else 1 for v in stuck_pattern_deltas(rng, 400)])))
+    # one production of the grammar for the whole run: the stuck count is then far from / right at the 90 % threshold
+    for rep in range(ctx.scale(2, 10)):
+        d0, st = rng.randrange(500, 3000), rng.randrange(1, 40)
+        pure = {
+            "staircase": [d0 + st * (i // 2) for i in range(400)],                       # d,d,d+s,d+s,… : half the probes stuck
+            "staircase3": [d0 + st * (i // 3) for i in range(400)],
+            "ramp": [d0 + st * i for i in range(400)],                                   # constant second difference: all stuck
+            "alternating": [d0 + (st if i % 2 else 0) for i in range(400)],
+            "sawtooth": [d0 + st * (i % 5) for i in range(400)],
+            "repeat-pairs-random": [v for _ in range(200) for v in [rng.randrange(100, 9000)] * 2],
+            "constant": [d0] * 400,
+        }
+        for k_, ds_ in pure.items():
+            scripts.append(("pure-" + k_, probe_script(rng, ds_)))
     # error classes
     z = probe_script(rng, [rng.randrange(1, 50) for _ in range(400)]); z[1 + 4 * rng.randrange(400)] = 0
     scripts.append(("zero-reading", z))
@@ -1537,6 +1664,18 @@ def tie_C16(ctx):
         cases.append(head + body)
         meta.append((shape, r))
         ctx.dist[f"shape{shape}"] += 1
+    # collected values with a zero / all-ones / repeated half (solved over GF(2), see jitter_special_words)
+    hi = [1 << (32 + i) for i in range(32)]
+    lo = [1 << i for i in range(32)]
+    for name, rs_, v in jitter_special_words(ctx, [("high-half-zero", hi, [0] * 32), ("low-half-zero", lo, [0] * 32),
+                                                    ("halves-equal", [(1 << i) | (1 << (32 + i)) for i in range(32)], [0] * 32)]):
+        hx = rd_hex(rs_)
+        head = [f"timer 0 {hx}", "jit 1 0", "rounds 1 1", f"timer 2 {hx}", "jit 3 2", "rounds 3 1"]
+        cases.append(head + ["u32 1", "calls 0", "u32 1", "calls 0", "u64 3", "calls 2", "u32 1", "calls 0", "u64 3", "u64 3"])
+        meta.append((0, 1))
+        cases.append(head + ["u32 1", "calls 0", "clone 4 1", "u32 4", "calls 0", "u32 1", "calls 0", "u64 3", "u64 3", "u32 4", "u32 1"])
+        meta.append((2, 1))
+        ctx.dist[f"special-word:{name}"] += 2
     # real-vs-real (twin on an identical timer); the Jitter model itself is tied to the code by C12's absolute tie
     h = ctx.real("JitterRng halves, fresh collections, clones: twins on identical timer scripts with call counts", cases)
     ctx.traces_validated += len(cases)
